@@ -38,6 +38,9 @@ def gen_case(rng, tier, i):
     n_dummy = rng.randint(1, min(2, len(names)))
     dummies = ["a", "b", "c"][:n_dummy]
     real = rng.sample(names, n_dummy)
+    if rng.random() < 0.3:
+        # dummy names that are themselves names of real axes of the grid, bound straight or crosswise
+        dummies = rng.sample(names, n_dummy)
     bind = dict(zip(dummies, real))
     n_in = rng.randint(1, 3)
     ins = []
@@ -57,6 +60,8 @@ def gen_case(rng, tier, i):
     how = rng.choice(["decorator", "call", "both", "apply"])
     other = {"boundary": rng.choice(RULES), "fill_value": fillv(rng),
              "boundary_width": {d: [rng.randint(0, 2), rng.randint(0, 2)] for d in bw}}
+    # an explicit None at call time is a value too: it overrides what was bound (grid defaults / no padding)
+    none_at_call = [k for k in ("boundary", "fill_value", "boundary_width") if rng.random() < 0.25]
     data = []
     for k, arg in enumerate(ins):
         dims = []
@@ -75,7 +80,8 @@ def gen_case(rng, tier, i):
     return {"layout": {"axes": axes, "extra": layout.extra}, "bind": bind, "ins": ins, "outs": outs,
             "bw": bw, "opts": opts, "other": other, "how": how, "hints": rng.random() < 0.3 and n_out > 0
             and all(len(o) > 0 for o in outs) and all(len(a) > 0 for a in ins), "data": data,
-            "grid_boundary": rng.choice(RULES), "pad_before": rng.random() < 0.75}
+            "grid_boundary": rng.choice(RULES), "grid_fill": rng.choice([0.0, 0.0, 3.0, -1.5]),
+            "none_at_call": none_at_call, "pad_before": rng.random() < 0.75}
 
 
 def sig_text(ins, outs):
@@ -88,7 +94,7 @@ def eval_case(case, drv):
     import xgcm
     from xgcm import as_grid_ufunc
     layout = Layout(case["layout"]["axes"], [tuple(e) for e in case["layout"]["extra"]])
-    ds, grid = build_grid(layout, boundary=case["grid_boundary"])
+    ds, grid = build_grid(layout, boundary=case["grid_boundary"], fill_value=case.get("grid_fill", 0.0))
     bind = case["bind"]
     ins, outs = case["ins"], case["outs"]
     outs_eff = outs if outs else [[]]
@@ -119,6 +125,12 @@ def eval_case(case, drv):
         if case["bw"]:
             call_kw["boundary_width"] = {d: tuple(w) for d, w in case["other"]["boundary_width"].items()}
             eff_bw = case["other"]["boundary_width"]
+        for k in case.get("none_at_call", []):
+            call_kw[k] = None
+            if k == "boundary_width":
+                eff_bw = {}
+            else:
+                eff[k] = None
     # pad_before_func=False: the function sees the unpadded inputs and its outputs are padded afterwards, so
     # it has to return arrays shorter by the declared widths (only where that leaves something to return)
     pad_before = case.get("pad_before", True)
@@ -208,8 +220,9 @@ def eval_case(case, drv):
                 axn = list(arr.dims).index(dim)
                 pw = [(0, 0)] * vals.ndim
                 pw[axn] = tuple(w)
-                mode = PADMODE[eff["boundary"]]
-                kw = {"constant_values": eff["fill_value"]} if mode == "constant" else {}
+                mode = PADMODE[eff["boundary"] if eff["boundary"] is not None else case["grid_boundary"]]
+                fv = eff["fill_value"] if eff["fill_value"] is not None else case.get("grid_fill", 0.0)
+                kw = {"constant_values": fv} if mode == "constant" else {}
                 vals = np.pad(vals, pw, mode=mode, **kw)
             if got[k].shape != vals.shape or not np.array_equal(got[k], vals):
                 prop_ok = False
